@@ -33,7 +33,7 @@ def cmdLoop (args : List String) : IO Unit := do
     | .ok c =>
       let out := runLoopCase c errCap noFns
       stdout.putStrLn (Json.mkObj [("id", getStr c "id"), ("verdict", out.verdict), ("detail", out.detail),
-        ("illegal_events", out.illegal)]).compress
+        ("illegal_events", out.illegal), ("completeness", out.completeness)]).compress
     stdout.flush
 
 def cmdForeach (_args : List String) : IO Unit := do
